@@ -371,14 +371,24 @@ class PageTemplate(BaseTemplate):
         digest = sha256(hex_b)
         digest.update(';'.join(names).encode('utf-8'))
 
+        # Every option that influences the compiled code takes part
         for attr in (
             'trim_attribute_space',
             'implicit_i18n_translate',
-            'strict'
+            'strict',
+            'boolean_attributes',
+            'implicit_i18n_attributes',
+            'enable_data_attributes',
+            'enable_comment_interpolation',
+            'restricted_namespace',
+            'default_expression',
+            'mode',
         ):
             v = getattr(self, attr)
+            if isinstance(v, (set, frozenset, list, tuple)):
+                v = sorted(v)
             digest.update(
-                (";{}={}".format(attr, str(v))).encode('ascii')
+                (";{}={}".format(attr, str(v))).encode('utf-8')
             )
 
         return digest.hexdigest()[:32]
